@@ -1,6 +1,7 @@
 //! cfdp-verif — property-based testing / fuzzing harness for ASU-cubesat/cfdp-rs (see /verif/DESIGN.md).
 pub mod alloc;
 pub mod common;
+pub mod fuzzrun;
 pub mod props;
 pub mod puppet;
 pub mod sim;
